@@ -212,6 +212,9 @@ static void run_case(Ctx& c, uint64_t idx) {
         if (n <= 8 && r.chance(1, 40)) { size_t len = special_length(r) % 1100; Str x = gen_string(r, len); while (x.size() < len) x += gen_string(r, len - x.size()).empty() ? Str("a") : gen_string(r, len - x.size()); x.resize(len); (r.coin() ? it.key : it.value) = x; if (!it.hasValue) it.value.clear(); }
         L.push_back(it); }
     int plus = (int)r.below(2), nb = (int)r.below(2);
+    // UriBool is an int: a caller may hand over any non-zero value for "yes" (flags & 4, -1, ...). Every part of the library has to
+    // read it the same way, or the measuring pass and the escaper disagree about the size
+    { static const int TRUTHY[] = {2, -1, 0x100, INT_MIN, 4}; if (plus && r.chance(1, 6)) plus = TRUTHY[r.below(5)]; if (nb && r.chance(1, 6)) nb = TRUTHY[r.below(5)]; if (plus > 1 || plus < 0 || nb > 1 || nb < 0) c.count("non_canonical_truthy_options"); }
     Str key; for (auto& it : L) key += it.key + "\x01" + (it.hasValue ? it.value : Str("\x02")) + "\x03";
     c.note("query compose " + esc(key.substr(0, 200))); c.distinct(hash_str(key, (uint64_t)plus * 2 + (uint64_t)nb));
     if (r.coin()) qA->compose_check(c, L, plus, nb); else qW->compose_check(c, L, plus, nb);
